@@ -490,6 +490,18 @@ func parseStops(csv *csv.File, inheritWheelchairBoarding bool) []Stop {
 		if !ok {
 			continue
 		}
+		// Ignore a parent_station that would make the stop its own ancestor.
+		isAncestor := false
+		for s := &stops[parentStopIndex]; s != nil; s = s.Parent {
+			if s == &stops[i] {
+				isAncestor = true
+				break
+			}
+		}
+		if isAncestor {
+			log.Printf("Ignoring parent station %s of stop %s because it creates a cycle", parentStopId, stops[i].Id)
+			continue
+		}
 		stops[i].Parent = &stops[parentStopIndex]
 	}
 
